@@ -184,6 +184,14 @@ def str_method(I: Interp, recv: VStr, name: str, args: list[V], kwargs: dict[str
             items = models.iterate(I, args[0])
             if all(isinstance(x, VStr) and x.s is not None for x in items):
                 return VStr(recv.s.join(x.s for x in items))  # type: ignore[attr-defined]
+            if items and all(isinstance(x, VStr) and (x.s is not None or x.t is not None)
+                             for x in items):
+                ts: list[Any] = []
+                for i, x in enumerate(items):
+                    if i:
+                        ts.append(z3.StringVal(recv.s))
+                    ts.append(models.str_term(x))  # type: ignore[arg-type]
+                return VStr(t=ts[0] if len(ts) == 1 else z3.Concat(*ts))
             return VStr()
     if recv.t is not None:
         if name == "encode":
